@@ -18,7 +18,7 @@ pub fn def() -> CheckDef {
         bounds_quick: "checked constructors on RAW data: arrays of length <=3 whose entries, codomains and sizes are unconstrained 64-bit values (index width 64); hypergraph/open-hypergraph constructors on valid segmented arrays with arbitrary segment counts <=2 and symbolic codomains; typed operations on W<=2, X<=1 operands",
         bounds_thorough: "arrays <=4, counts <=3, operands W<=3, X<=2",
         jobs,
-        budget_s: (120, 2400),
+        budget_s: (120, 1500),
     }
 }
 
@@ -207,7 +207,7 @@ fn oracle_coeq(inp: &PV, out: &PV) -> T {
 pub fn jobs(tier: Tier, seed: u64) -> Vec<Job> {
     let per_job = Duration::from_secs(match tier {
         Tier::Quick => 60,
-        Tier::Thorough => 900,
+        Tier::Thorough => 600,
     });
     let cfg = base_cfg(tier);
     // raw data: full 64-bit values, dev profile (overflow = panic)
